@@ -33,6 +33,12 @@ O  OPTIONS OF ONE CALL as cells (round 8, Context.tla OptCells): the arguments o
    module that runs 1-2 s) is the reader of the time limit.  Expected: the fresh context.  A difference the model
    with the deviations TimeLimitKept / CallOptionsKept explains is NAMED by it (which option of which earlier call);
    a verdict about a kind that depends on wall-clock time is re-executed alone before it is believed.
+H  OBJECTS HANDED OUT by the constructors of the retained libraries (round 9; ContextInvoke!ObjKinds, Context!lobjects):
+   writer kinds obtain an object (mw.title.new / makeTitle / getCurrentTitle / basePageTitle / subPageTitle, mw.language.new /
+   getContentLanguage, mw.html.create, mw.message.new) and write its writable fields, reader kinds obtain the object of the
+   same request again - later on the same page, after a page break, through another constructor - and report them.
+   Demanded: what a fresh context hands out.  Deviations: HandedOutObjectsMemoised (class of a seeded change),
+   ContentLanguageObjectShared (as-is: ONE content-language object per Lua runtime; candidate finding until listed).
 """
 from __future__ import annotations
 
@@ -926,7 +932,8 @@ def invocation_histories(o, tier, gen, demo, dld, demos_nest):
         if objmemo_explains:
             why += INV_WHY_OBJMEMO
         o.violation(case, why, cls="invocation-history:" + ("EnvKeptOnAbort" if kept_explains else "TimeLimitKept" if limkept_explains else
-                                                             "HandedOutObjectsMemoised" if objmemo_explains else kind))
+                                                             "HandedOutObjectsMemoised" if objmemo_explains else
+                                                             "handed-out-object" if isinstance(kind, str) and kind in OBJ_KINDS else kind))
 
     for (_, hid, hist, rendering, exp), (got, again) in zip(items, results):
         o.evaluations += len(hist)
@@ -1213,7 +1220,7 @@ def run(tier: str) -> int:
             kept = sorted(optkept[i]) if optkept is not None and not explained else []
             if "lobjects" in kept:
                 # the model in which the constructors hand out memoised objects says which earlier page wrote into them
-                kept.remove("lobjects")
+                kept = []       # (the written objects are met whatever options the earlier calls were given)
                 js = [j for j in range(i) if hist[j] == "luaHandedOut"]
                 why += ("; the page obtains objects from " + ", ".join(v for c, v in sorted(OBJ_CTORS.items()) if c != "lcont") + " (T = %r), reports "
                         "their writable fields (a field of the module's own / fragment) and then writes them; the model with the deviation "
@@ -1373,5 +1380,20 @@ def selftest() -> int:
     lv = inv_trace([lev, lbad])
     print("recorded", lgot, "->", [(x["bad"], x["limKeptExplains"]) for x in lv])
     ok = ok and [(x["bad"], x["limKeptExplains"]) for x in lv] == [([], False), ([2], True)]
+    # (round 9) objects handed out by library constructors: the models in which they are memoised / in which the one
+    # content-language object lives as long as the runtime violate the laws; a recorded <write through mw.title.new, read
+    # through mw.title.makeTitle> passes, the recording of a context that hands the written object out again is rejected
+    # and explained by HandedOutObjectsMemoised
+    for mod, cfg in (("Gen_Context", "Demo_Context_objmemo.cfg"), ("Gen_ContextInvoke", "Demo_ContextInvoke_objmemo.cfg"),
+                     ("Gen_ContextInvoke", "Demo_ContextInvoke_contlang.cfg")):
+        dv = tlc(mod, cfg, workers=1, check=False)
+        print(cfg, "violates its law in the model:", bool(dv.invariant_violated))
+        ok = ok and bool(dv.invariant_violated)
+    ogot, oev = inv_record(["ow_tnew", "page", "or_tmake"])
+    obad = json.loads(json.dumps(oev))
+    obad[2]["v"] = "set"
+    ov = inv_trace([oev, obad])
+    print("recorded", ogot, "->", [(x["bad"], x["objMemoExplains"]) for x in ov])
+    ok = ok and [(x["bad"], x["objMemoExplains"]) for x in ov] == [([], False), ([3], True)]
     print("selftest", "ok" if ok else "FAILED")
     return 0 if ok else 1
